@@ -356,12 +356,15 @@ def rule_lr_filter(rep):
             for ac in (False, True)
         ]
 
+        fresh_seen = {}
+
         def run(atom):
             consulted = []
 
             def atom2(e, it):
                 if isinstance(e, ast.Call) and is_self_attr(e.func, "_call_dynamic_filter"):
                     consulted.append(e)
+                    fresh_seen.update(it.fresh)
                 return atom(e, it)
 
             def eff(st, it):
@@ -400,6 +403,23 @@ def rule_lr_filter(rep):
                         p = arg_of(c, target, "production")
                         s = arg_of(c, target, "subresults")
                         args_ok = args_ok and p is not None and unparse(p) == "A.prod" and s is not None
+                        if args_ok:
+                            from ..core import plain
+                            st = plain(s)
+                            if isinstance(s, ast.Name) and s.id in fresh_seen:
+                                st = plain(fresh_seen[s.id])
+                            want = (
+                                "[x.results for x in self.parse_stack[-len(A.prod.rhs):]]" if v["rlen"] else "[]"
+                            )
+                            if st != want:
+                                args_ok = False
+                                r.violation(
+                                    "_dynamic_disambiguation:subresults",
+                                    f"for a {'non-empty' if v['rlen'] else 'EMPTY'} production the filter is shown "
+                                    f"`{st[:80]}` as sub-results; needed `{want}` (the sub-results of exactly that "
+                                    "reduction: `seq[-0:]` is the whole parse stack)",
+                                    node=loop,
+                                )
                 r.check(
                     ok and args_ok,
                     "LR filter row " + describe(v),
@@ -497,3 +517,7 @@ def check(rep):
     rule_dominance_glr(rep)
     rule_lr_filter(rep)
     rule_marks(rep)
+    # the filter belongs to the main parser only: the layout sub-parser's configuration is closed
+    from .C14 import rule_subparser
+
+    rule_subparser(rep)
